@@ -1650,21 +1650,22 @@ def impl_batch(transport, hists, workers):
 def run(ctx):
     tier, seed = ctx["tier"], ctx["seed"]
     drv = Driver(ctx["driver"])
-    workers = min(12, os.cpu_count() or 2)
+    workers = min(16, os.cpu_count() or 2)
     get_pool(workers)
     cov = Coverage("distinct history (transport + event list) in which at least one frame was sealed or one open attempted")
     viols = {}
     full_depth, core_depth = (4, 5) if tier == "quick" else (5, 6)
-    n_rand = 1000 if tier == "quick" else 12000
+    n_rand = 700 if tier == "quick" else 12000
     counts = {}
     mismatches = 0
     xsample = []
     # quick tier: a few symbols whose behaviour is also covered by another sweep are left to the thorough tier
     quick = tier == "quick"
-    drop = {"ip": {"S1025.0"}, "ble": {"S1.0"}, "coap": set()} if quick else {"ip": set(), "ble": set(), "coap": set()}
+    drop = {"ip": {"S1025.0", "D"}, "ble": {"S1.0", "T", "D"}, "coap": {"F1"}} if quick else {"ip": set(), "ble": set(), "coap": set()}
     core_drop = {"ip": {"F1"}, "ble": {"F1"}, "coap": {"T"}} if quick else drop
     evt_alpha = [a for a in COAP_EVT if not (quick and a == "EL0")]
-    seg_alpha = [a for a in IP_SEG if not (quick and a in ("N+N@2", "R0"))]
+    seg_alpha = [a for a in IP_SEG if not (quick and a in ("N+N@2", "R0", "N@1", "N+N+N@2"))]
+    fault_alpha = [a for a in BLE_FAULT if not (quick and a in ("S1.0", "V30.1.0"))]
     alpha_used = {}
     for transport in ("ip", "ble", "coap"):
         alpha_used[transport] = [a for a in ALPHA[transport] if a not in drop[transport]]
@@ -1679,7 +1680,7 @@ def run(ctx):
         if transport in SESS:
             hists += list(exhaustive(SESS[transport], full_depth))
         if transport == "ble":
-            hists += list(exhaustive(BLE_FAULT, 4))
+            hists += list(exhaustive(fault_alpha, 4))
         n_core = len(hists) - n_full
         hists += DIRECTED[transport]
         hists += random_histories(transport, rng(seed, "c06" + transport), n_rand, 60)
@@ -1744,7 +1745,7 @@ def run(ctx):
         "IP and CoAP additionally every history of length <= %d over the session alphabets %s (RR = reconnect against a peer replaying a "
         "recorded pair-verify, N4 = 4.04 response)"
         % (full_depth, alpha_used, core_depth, {k: [a for a in v if a not in core_drop[k]] for k, v in CORE.items()}, core_depth, evt_alpha,
-           full_depth, seg_alpha, 4, BLE_FAULT, core_depth, COAP_SUBS, full_depth, SESS))
+           full_depth, seg_alpha, 4, fault_alpha, core_depth, COAP_SUBS, full_depth, SESS))
     cov.extra["case_counts"] = counts
     cov.extra["disagreements_checked"] = mismatches
     cov.extra["compared"] = "seal log, wire log, open attempts (nonce, success), accepted frame identities, per-request outcome class"
